@@ -334,8 +334,30 @@ def snapshot_constants() -> dict[str, str]:
         for cname, cls in list(vars(mod).items()):
             if isinstance(cls, type) and cls.__module__ == name:
                 for attr, val in list(vars(cls).items()):
-                    if attr.isupper() and not callable(val):
+                    if callable(val) or attr.startswith("_"):
+                        continue          # private / enum-internal caches are not shared configuration
+                    # class-level constants and class-level mutable containers (shared by every instance)
+                    if attr.isupper() or isinstance(val, (dict, list, set)):
                         out[f"{name}.{cname}.{attr}"] = canon_value(val)
     return out
 
 
+
+
+_DEFAULTS: dict = {}
+
+
+def effective_drm(env, c) -> str:
+    """the DRM selection in force for a request: the `drm` parameter if given, else the stream's
+    stored default, else none"""
+    if c.get("drm") is not None:
+        return c["drm"]
+    if not _DEFAULTS:
+        _DEFAULTS.update(env.stream_defaults() or {"": {}})
+    return (_DEFAULTS.get(c.get("stream")) or {}).get("drmSelection") or ""
+
+
+def default_license_url(env, stream: str) -> str | None:
+    if not _DEFAULTS:
+        _DEFAULTS.update(env.stream_defaults() or {"": {}})
+    return ((_DEFAULTS.get(stream) or {}).get("playready") or {}).get("licenseUrl")
